@@ -586,6 +586,10 @@ class Engine:
             if h is not NotImplemented:
                 return h
             return BoundMethod(o, attr)
+        import enum as _enum
+
+        if isinstance(o, _enum.Enum) and attr in ("name", "value"):
+            return getattr(o, attr)
         if isinstance(o, (MapVal, ListVal, SeqBox, str, ExcVal)):
             if isinstance(o, ExcVal) and attr == "error_code":
                 return o.code
